@@ -159,10 +159,11 @@ func storeRoot(addr ssa.Value, li *loopInfo) (key string, t types.Type, roots []
 		}
 	case *ssa.Alloc:
 		tt := a.Type().(*types.Pointer).Elem()
+		hk, ht := heapKeyForObj(tt)
 		if definedOutside(a, li) {
-			return heapKeyObj(tt), tt, []ssa.Value{a}, -1, false, true
+			return hk, ht, []ssa.Value{a}, -1, false, true
 		}
-		return heapKeyObj(tt), tt, nil, -1, true, true
+		return hk, ht, nil, -1, true, true
 	case *ssa.Global:
 		tt := a.Type().(*types.Pointer).Elem()
 		return heapKeyGlobal(a.Pkg.Pkg.Path() + "." + a.Name()), tt, nil, -1, false, false
@@ -171,10 +172,11 @@ func storeRoot(addr ssa.Value, li *loopInfo) (key string, t types.Type, roots []
 	if !isPtr {
 		return "", nil, nil, -1, false, false
 	}
+	hk2, ht2 := heapKeyForObj(pt.Elem())
 	if definedOutside(addr, li) {
-		return heapKeyObj(pt.Elem()), pt.Elem(), []ssa.Value{addr}, -1, false, true
+		return hk2, ht2, []ssa.Value{addr}, -1, false, true
 	}
-	return heapKeyObj(pt.Elem()), pt.Elem(), nil, -1, false, false
+	return hk2, ht2, nil, -1, false, false
 }
 
 // isRootPointer: the FieldAddr operand is itself the root object pointer (not a nested field address).
@@ -263,7 +265,8 @@ func (x *Exec) loopTargets(fr *Frame, li *loopInfo) (map[string]*loopMod, bool) 
 				switch v := in.(type) {
 				case *ssa.Alloc:
 					t := v.Type().(*types.Pointer).Elem()
-					get(heapKeyObj(t), t)
+					hk, ht := heapKeyForObj(t)
+					get(hk, ht)
 				case *ssa.MakeSlice:
 					et := v.Type().Underlying().(*types.Slice).Elem()
 					get(heapKeySlice(et), et)
